@@ -305,7 +305,8 @@ def pairs3d_body(ctx, d):
 
 @st.composite
 def roi_pairs(draw, tier="quick"):
-    x, y = draw(st.integers(0, 3800)), draw(st.integers(0, 3800))
+    # (boxes may stick out of the image at the left / top: negative offsets)
+    x, y = draw(st.one_of(st.integers(0, 3800), st.integers(-300, 60))), draw(st.one_of(st.integers(0, 3800), st.integers(-300, 60)))
     w, h = draw(st.integers(1, 400)), draw(st.integers(1, 400))
     kind = draw(st.sampled_from(["indep", "overlap", "overlap", "touch", "nested", "same", "tiny"]))
     if kind == "tiny":
@@ -313,7 +314,7 @@ def roi_pairs(draw, tier="quick"):
     if kind == "indep":
         b = [draw(st.integers(0, 3800)), draw(st.integers(0, 3800)), draw(st.integers(1, 400)), draw(st.integers(1, 400))]
     elif kind in ("overlap", "tiny"):
-        b = [max(0, x + draw(st.integers(-w, w))), max(0, y + draw(st.integers(-h, h))), draw(st.integers(1, 2 * w)), draw(st.integers(1, 2 * h))]
+        b = [x + draw(st.integers(-w, w)), y + draw(st.integers(-h, h)), draw(st.integers(1, 2 * w)), draw(st.integers(1, 2 * h))]
     elif kind == "touch":
         b = [x + w, y + draw(st.integers(-h, h)) if y > h else y, w, h]
     elif kind == "nested":
